@@ -55,7 +55,7 @@ def check_no_oversell(ctx, num=1):
         live = key in ("naive", "tmpl")
         g = cfg_of(f, subst_env=live)
         env = single_defs(f)
-        sites = [c for fn_, c in sched.assignment_sites(P, f) if fn_.node is f.node]
+        sites = [c for fn_, c in sched.assignment_sites(P, f) if same_fn(fn_, f)]
         ctx.count_min(f"Assignment( sites in {key}", len(sites), 1)
         for c in sites:
             A = _snapshot_terms(P, key, f, c, s_p)
@@ -262,7 +262,7 @@ def check_depletion_assert(ctx, num=9):
     f = sched.scheduler(P, "priority-pool")
     g = cfg_of(f, subst_env=False)
     s_p = f.params()[0]
-    sites = [c for fn_, c in sched.assignment_sites(P, f) if fn_.node is f.node]
+    sites = [c for fn_, c in sched.assignment_sites(P, f) if same_fn(fn_, f)]
     # is there a both-or-none depletion assertion at all?
     asserts = [a for a in own_nodes(f.node) if isinstance(a, ast.Assert) and "== 0" in norm.U(a.test) and "and" in norm.U(a.test)]
     if not asserts:
@@ -298,6 +298,8 @@ def run(ctx):
     c05.check_tick_body(_Renumber(ctx, {4: 8, 5: 8, 6: 8, 7: 8}), sh)
     c10.check_duration(_Renumber(ctx, {3: 8, 6: 8}), 3)
     check_depletion_assert(ctx, 9)
+    check_positivity(ctx, 10)
+    check_admission_exact(ctx, 11)
 
 
 class _Renumber:
@@ -314,3 +316,289 @@ class _Renumber:
         if num in self._drop:
             return bool(a[2]) if len(a) > 2 else True
         return self._ctx.ob(self._t.get(num, num), *a, **kw)
+
+
+# ---------------------------------------------------------------------------------------------------------------------
+# (10) what the constructor of Assignment insists on (positive cpu, positive ram, at least one operator) holds at every
+#      construction in a shipped scheduler; (11) the executor refuses a batch only when it does not fit.
+
+class _Probe:
+    """ctx proxy that records obligation verdicts without filing them (the obligations are filed by their own clause)."""
+
+    def __init__(self, ctx):
+        self._ctx, self.results = ctx, []
+
+    def __getattr__(self, k):
+        return getattr(self._ctx, k)
+
+    def ob(self, num, kind, text, ok, *a, **kw):
+        self.results.append((text, bool(ok)))
+        return bool(ok)
+
+    def count_min(self, *a, **kw):
+        return None
+
+    def touch(self, *a, **kw):
+        return None
+
+
+def _view(P, m):
+    from ..util import view_funcs
+    return view_funcs(P, m)
+
+
+def _ctor_demands(P) -> Dict[str, ast.Assert]:
+    """parameter -> the assert of Assignment.__init__ that demands it to be positive / non-empty"""
+    ai = P.fn(AS, "Assignment.__init__")
+    out = {}
+    for a in own_nodes(ai.node):
+        if not isinstance(a, ast.Assert):
+            continue
+        for x in norm.atoms_true(norm.nnf(a.test)):
+            if x[0] == "cmp" and x[1] == "<" and x[2] == "0" and x[3] in ai.params():
+                out[x[3]] = a
+            elif x[0] == "truth" and x[2] is True and x[1] in ai.params():
+                out[x[1]] = a
+    return out
+
+
+def _retry_invariant(ctx, num) -> bool:
+    """every RetryStats carries the amounts of an assignment that existed (which the constructor checked to be positive)"""
+    P = ctx.P
+    good = True
+    n = 0
+    for m in P.modules.values():
+        for fn_ in _view(P, m):
+            for c in calls_named(fn_, "RetryStats"):
+                if not isinstance(c.func, ast.Name):
+                    continue
+                n += 1
+                for kw_, suffix in (("old_cpu", "cpu"), ("old_ram", "ram")):
+                    v = norm.kwarg(c, kw_, {"old_ram": 0, "old_cpu": 1}[kw_])
+                    t = norm.U(v) if v is not None else ""
+                    ok = isinstance(v, ast.Attribute) and v.attr == suffix and (t.endswith(f".assignment.{suffix}") or isinstance(v.value, ast.Name))
+                    ctx.ob(num, "K12", f"a retry record carries the {suffix.upper()} of the assignment that ran before (a positive amount)", ok, fn_, c,
+                           construct=f"RetryStats({kw_}=<previous allocation>)", detail=f"{kw_}={t}")
+                    good = good and ok
+    rp = P.fn(RP, "ResourcePool.run_one_tick")
+    for fn_ in [P.fn(RP, q) for q in poolmod.pool_analysis(P).closure]:
+        for c in calls_named(fn_, "ExecutionResult"):
+            for res in ("cpu", "ram"):
+                v = norm.kwarg(c, res, {"cpu": 1, "ram": 2}[res])
+                t = norm.U(v) if v is not None else ""
+                ok = t.endswith(f".assignment.{res}")
+                ctx.ob(num, "K12", f"a result reports the {res.upper()} of its container's assignment", ok, fn_, c, construct=f"ExecutionResult({res}=c.assignment.{res})", detail=f"{res}={t}")
+                good = good and ok
+    ctx.count_min("RetryStats( construction sites", n, 1)
+    return good
+
+
+def _job_ops_invariant(ctx, num) -> bool:
+    """every waiting job is created with at least one operator"""
+    P = ctx.P
+    good = True
+    n = 0
+    for m in P.modules.values():
+        if not m.rel.startswith("eudoxia/scheduler/"):
+            continue
+        for fn0 in _view(P, m):
+            if not calls_named(fn0, "WaitingQueueJob"):
+                continue
+            fn_ = fn0
+            g = cfg_of(fn_, subst_env=False)
+            for c in calls_named(fn_, "WaitingQueueJob"):
+                if not isinstance(c.func, ast.Name):
+                    continue
+                n += 1
+                v = norm.kwarg(c, "ops", 2)
+                ok, why = _nonempty(fn_, g, c, v)
+                ctx.ob(num, "K2", "a waiting job is created with at least one operator (its operators are what an Assignment is built from later)", ok, fn_, c,
+                       construct="WaitingQueueJob(ops=<non-empty>)", detail=why)
+                good = good and ok
+    ctx.count_min("WaitingQueueJob( construction sites", n, 1)
+    return good
+
+
+def _live_container(fn_, g, at, cv) -> bool:
+    """cv names a container that was taken from some pool's active_containers (directly, or through a selection list filled from it)"""
+    if not isinstance(cv, ast.Name):
+        return False
+    s_p = fn_.params()[0] if fn_.params() else "s"
+    try:
+        if c12._container_source(fn_, g, at, cv.id, s_p):
+            return True
+        lp = enclosing_for(at, fn_.node)
+        while lp is not None:
+            if norm.is_name(lp.target, cv.id) and isinstance(lp.iter, ast.Name):
+                L = lp.iter.id
+                inits = [n for n in own_nodes(fn_.node) if isinstance(n, ast.Assign) and any(norm.is_name(t, L) for t in n.targets)]
+                apps = [c for c in calls_named(fn_, "append") if isinstance(c.func, ast.Attribute) and norm.is_name(c.func.value, L)]
+                other = [c for c in own_nodes(fn_.node) if isinstance(c, ast.Call) and isinstance(c.func, ast.Attribute) and norm.is_name(c.func.value, L)
+                         and c.func.attr in ("extend", "insert", "__setitem__")]
+                return bool(apps) and not other and len(inits) == 1 and isinstance(inits[0].value, ast.List) and not inits[0].value.elts \
+                    and all(len(c.args) == 1 and isinstance(c.args[0], ast.Name) and c12._container_source(fn_, g, c, c.args[0].id, s_p) for c in apps)
+            lp = enclosing_for(lp, fn_.node)
+        return False
+    except Exception:
+        return False
+
+
+def _nonempty(fn_, g, at, v, job_ok: Optional[bool] = None) -> Tuple[bool, str]:
+    if v is None:
+        return False, "no ops argument"
+    if isinstance(v, ast.List):
+        return len(v.elts) >= 1 and not any(isinstance(e, ast.Starred) for e in v.elts), f"list literal {norm.U(v)}"
+    t = norm.U(v)
+    if g.holds_at(at, ("truth", t, True)):
+        return True, f"`{t}` is non-empty on every path to the construction"
+    if isinstance(v, ast.Attribute) and v.attr == "ops" and job_ok is not None:
+        return True, f"`{t}`: operators of a waiting job (every job is created non-empty: {job_ok}; a creation site that is not is reported on its own)"
+    if isinstance(v, ast.Call) and norm.call_name(v) == "list" and len(v.args) == 1 and isinstance(v.args[0], ast.Attribute) and v.args[0].attr == "values" \
+            and isinstance(v.args[0].value, ast.Name):
+        return True, f"`{t}`: all operators of a pipeline (pipelines are never empty: the generator draws >= 1 operator, the trace reader refuses an empty batch)"
+    if isinstance(v, ast.ListComp) and len(v.generators) == 1 and isinstance(v.generators[0].iter, ast.Attribute) and v.generators[0].iter.attr == "operators" \
+            and isinstance(v.generators[0].target, ast.Name) and norm.is_name(v.elt, v.generators[0].target.id) and len(v.generators[0].ifs) == 1 \
+            and norm.mk_cmp("!=", f"{v.generators[0].target.id}.state()", "OperatorState.COMPLETED") in norm.atoms_true(norm.nnf(v.generators[0].ifs[0])) and _live_container(fn_, g, at, v.generators[0].iter.value):
+        return True, (f"`{t}`: the unfinished operators of a container taken from a pool's active list (a live container holds an unfinished operator: "
+                      "it leaves the active list in the tick its last operator completes, C05#7 / C09)")
+    if isinstance(v, ast.Name):
+        defs = sched.reaching_defs(fn_, g, at, v.id)
+        if defs and all(isinstance(d, ast.Assign) for d in defs):
+            notes = []
+            for d in defs:
+                ok, why = _nonempty(fn_, g, d, d.value, job_ok)
+                if not ok:
+                    return False, why
+                notes.append(why)
+            return True, "; ".join(notes)
+    return False, f"`{t}` is not known to be non-empty at the construction"
+
+
+def _positive(P, fn_, g, at, e, res: str, lem: dict, depth: int = 0) -> Tuple[bool, str]:
+    if depth > 6:
+        return False, "too deep"
+    if isinstance(e, ast.Constant) and isinstance(e.value, (int, float)) and not isinstance(e.value, bool):
+        return e.value > 0, f"constant {e.value}"
+    t = norm.U(e)
+    fs = g.facts_at(at)
+    if norm.entails(fs, ("cmp", "<", "0", t)):
+        return True, f"0 < {t} on every path"
+    if isinstance(e, ast.Attribute) and e.attr in ("old_cpu", "old_ram"):
+        return lem["retry"], f"{t}: amount of a previous assignment (retry-record invariant: {lem['retry']})"
+    if isinstance(e, ast.Attribute) and e.attr in ("max_cpu_pool", "max_ram_pool"):
+        return True, f"{t}: pool capacity (positive in a valid configuration)"
+    if isinstance(e, ast.Subscript) and isinstance(e.slice, ast.Constant) and e.slice.value in ("avail_cpu", "avail_ram") and isinstance(e.value, ast.Subscript):
+        # a per-round snapshot entry: never negative (it starts at the pool's free counter and is only reduced by amounts <= itself, clause 1)
+        if norm.entails(set(fs) | {("cmp", "<=", "0", t)}, ("cmp", "<", "0", t)):
+            return True, f"{t} != 0 on every path and snapshot entries are never negative (clause 1)"
+        idx = e.value.slice
+        if isinstance(idx, ast.Name):
+            defs = sched.reaching_defs(fn_, g, at, idx.id)
+            if len(defs) == 1 and isinstance(defs[0], ast.Assign) and isinstance(defs[0].value, ast.Call) and norm.call_name(defs[0].value) == "get_pool_with_max_avail_ram" \
+                    and len(defs[0].value.args) == 2 and norm.U(defs[0].value.args[1]) == norm.U(e.value.value):
+                chosen = norm.entails(fs, norm.mk_cmp("!=", idx.id, "-1"))
+                d_id, a_id = g.node_of(defs[0]).id, g.node_of(at).id
+                stale = None
+                for m in own_nodes(fn_.node):
+                    tg = m.target if isinstance(m, ast.AugAssign) else (m.targets[0] if isinstance(m, ast.Assign) and len(m.targets) == 1 else None)
+                    if tg is not None and isinstance(tg, ast.Subscript) and norm.U(tg).startswith(norm.U(e.value.value) + "["):
+                        m_id = g.node_of(m).id
+                        if m_id in (d_id, a_id):
+                            continue
+                        if g.path_avoiding(d_id, {m_id}, {d_id}) is not None and g.path_avoiding(m_id, {a_id}, {d_id}) is not None:
+                            stale = m
+                ok = chosen and stale is None and lem["chooser"]
+                return ok, (f"{t}: pool `{idx.id}` was returned by the chooser (only pools with free CPU > 0 and free RAM > 0: {lem['chooser']}), "
+                            f"`{idx.id} != -1` at this point: {chosen}, snapshot untouched since the choice: {stale is None}")
+        return False, f"{t}: snapshot entry not known to be positive here"
+    if isinstance(e, ast.BinOp) and isinstance(e.op, ast.Mult):
+        a, wa = _positive(P, fn_, g, at, e.left, res, lem, depth + 1)
+        b, wb = _positive(P, fn_, g, at, e.right, res, lem, depth + 1)
+        return a and b, f"{wa} * {wb}"
+    if isinstance(e, ast.Call) and norm.call_name(e) == "max" and e.args and not e.keywords:
+        rs_ = [_positive(P, fn_, g, at, a, res, lem, depth + 1) for a in e.args]
+        return any(r[0] for r in rs_), "max(" + "; ".join(r[1] for r in rs_) + ")"
+    if isinstance(e, ast.Call) and norm.call_name(e) == "min" and e.args and not e.keywords:
+        rs_ = [_positive(P, fn_, g, at, a, res, lem, depth + 1) for a in e.args]
+        return all(r[0] for r in rs_), "min(" + "; ".join(r[1] for r in rs_) + ")"
+    if isinstance(e, ast.IfExp):
+        a, wa = _positive(P, fn_, g, at, e.body, res, lem, depth + 1)
+        b, wb = _positive(P, fn_, g, at, e.orelse, res, lem, depth + 1)
+        return a and b, f"{wa} | {wb}"
+    if isinstance(e, ast.Name):
+        defs = sched.reaching_defs(fn_, g, at, e.id)
+        if defs and all(isinstance(d, ast.Assign) and len(d.targets) == 1 for d in defs):
+            notes = []
+            for d in defs:
+                ok, why = _positive(P, fn_, g, d, d.value, res, lem, depth + 1)
+                if not ok:
+                    return False, f"`{stmt_text(d)}`: {why}"
+                notes.append(why)
+            return True, " || ".join(notes)
+        return False, f"`{e.id}`: {'no' if not defs else 'non-assignment'} definition reaches the construction"
+    return False, f"{t}: not known to be positive"
+
+
+def check_positivity(ctx, num=10):
+    P = ctx.P
+    demands = _ctor_demands(P)
+    if not demands:
+        ctx.ob(num, "K2", "Assignment.__init__ demands nothing of cpu / ram / ops", True, P.fn(AS, "Assignment.__init__"), P.fn(AS, "Assignment.__init__").node,
+               construct="constructor demands", detail="no assert on the parameters", nontrivial=False)
+        return
+    pr = _Probe(ctx)
+    fpr = sched.scheduler(P, "priority")
+    try:
+        c12.check_pool_choice(pr, fpr, fpr.params()[0])
+        chooser = bool(pr.results) and all(ok for _t, ok in pr.results)
+    except Exception:
+        chooser = False
+    lem = {"retry": _retry_invariant(ctx, num), "chooser": chooser}
+    job_ok = _job_ops_invariant(ctx, num)
+    for key in sched.IN_PROCESS:
+        f = sched.scheduler(P, key)
+        ctx.touch(f)
+        sites = sched.assignment_sites(P, f)
+        ctx.count_min(f"Assignment( sites of {key} (positivity)", len(sites), 1)
+        for fn_, c in sites:
+            g = cfg_of(fn_, subst_env=False)
+            for res in ("cpu", "ram"):
+                if res not in demands:
+                    continue
+                arg = sched.asg_arg(c, res)
+                ok, why = (False, "argument missing") if arg is None else _positive(P, fn_, g, c, arg, res, lem)
+                ctx.ob(num, "K9", f"[{key}] the {res.upper()} handed to Assignment is > 0 on every path (the constructor asserts it; a zero would stop the run)", ok, fn_, c,
+                       construct=f"{res} > 0", detail=why)
+            if "ops" in demands:
+                ok, why = _nonempty(fn_, g, c, sched.asg_arg(c, "ops"), job_ok)
+                ctx.ob(num, "K9", f"[{key}] the operator list handed to Assignment is non-empty on every path (the constructor asserts it)", ok, fn_, c,
+                       construct="ops non-empty", detail=why)
+
+
+def check_admission_exact(ctx, num=11):
+    """The executor refuses a batch only when it does not fit: an exact fit (sum == free) is accepted.  naive hands out the
+    whole free pool, priority / priority-pool 'take the remainder' — a stricter test would stop those runs."""
+    P = ctx.P
+    f = P.fn(RP, "ResourcePool.verify_valid_assignment")
+    ctx.touch(f)
+    g = cfg_of(f, subst_env=False)
+    accs = {}
+    for n in own_nodes(f.node):
+        if isinstance(n, ast.AugAssign) and isinstance(n.op, ast.Add) and isinstance(n.target, ast.Name) and isinstance(n.value, ast.Attribute) and n.value.attr in ("cpu", "ram"):
+            accs[n.value.attr] = n.target.id
+    fits = set()
+    if "cpu" in accs:
+        fits.add(("cmp", "<=", accs["cpu"], "self.avail_cpu_pool"))
+    if "ram" in accs:
+        fits.add(("cmp", "<=", accs["ram"], "self.avail_ram_pool"))
+    refusals = [n for n in own_nodes(f.node) if isinstance(n, (ast.Assert, ast.Raise))]
+    for r in refusals:
+        fs = set(g.facts_at(r)) | fits
+        if isinstance(r, ast.Assert):
+            ok = norm.entails(fs, norm.nnf(r.test))
+            d = f"under `the batch fits` ({sorted(norm.show(x) for x in fits)}) the asserted condition {norm.U(r.test)} is implied: {ok}"
+        else:
+            # a raise must be unreachable when the batch fits: some fact on the way contradicts `fits`
+            ok = any(norm.entails(fits, norm.neg(x)) for x in g.facts_at(r))
+            d = f"raise reachable although the batch fits: {not ok}"
+        ctx.ob(num, "K2", "the executor refuses a batch only when it does not fit (a batch that exactly fills the free CPU / RAM is accepted)", ok, f, r, detail=d)
